@@ -211,6 +211,10 @@ class SymContext(object):
         """wrap a Python function of the contract as a callable for the interpreted code"""
         return self._I.Builtin('contract-lambda', lambda ip, a, k: pyfunc(*a, **k))
 
+    def exact_eq(self, a, b):
+        """float == (used by the EUF-mode exactness clauses)"""
+        return self._sym.eq(a, b)
+
     def cos_sin_deg(self, degs):
         """(cos, sin) of an angle given in degrees (same uninterpreted atoms the code reaches
         through radians())"""
@@ -396,6 +400,9 @@ class ConcContext(object):
 
     def lam(self, pyfunc):
         return pyfunc
+
+    def exact_eq(self, a, b):
+        return a == b
 
     def cos_sin_deg(self, degs):
         import math
